@@ -339,6 +339,8 @@ def run(prop, tier, vseed):
         for a, fails, nf in pool.imap(work, tasks, chunksize=1):
             nev += a
             failures.extend(fails)
+            if len(failures) > 20000:
+                failures = report.compact(failures)
             nforms = max(nforms, nf)
     f2, n2, shapes = named_ranges(3 if tier == "quick" else 4)
     failures.extend(f2)
